@@ -83,11 +83,22 @@ func runSM(c *Ctx, s *Sink) {
 			if !ok {
 				return true
 			}
-			if id, ok := ast.Unparen(rs.X).(*ast.Ident); !ok || info.ObjectOf(id) != mapObj {
-				return true
+			var vid *ast.Ident
+			bodyList := rs.Body.List
+			if id, ok := ast.Unparen(rs.X).(*ast.Ident); ok && info.ObjectOf(id) == mapObj {
+				vid, _ = rs.Value.(*ast.Ident)
+			} else if len(rs.Body.List) > 0 {
+				// a loop over the (sorted) keys of the map whose body starts by reading the position: p := mut[key]
+				if as, ok := rs.Body.List[0].(*ast.AssignStmt); ok && as.Tok == token.DEFINE && len(as.Lhs) == 1 && len(as.Rhs) == 1 {
+					if ix, ok := ast.Unparen(as.Rhs[0]).(*ast.IndexExpr); ok && rootObj(info, ix.X) == mapObj {
+						if _, isID := ast.Unparen(ix.X).(*ast.Ident); isID {
+							vid, _ = as.Lhs[0].(*ast.Ident)
+							bodyList = rs.Body.List[1:]
+						}
+					}
+				}
 			}
-			vid, ok := rs.Value.(*ast.Ident)
-			if !ok {
+			if vid == nil {
 				return true
 			}
 			env := &linEnv{info: info, vars: map[types.Object]linForm{}, defs: defs, atoms: map[string]bool{}, lens: map[string]bool{}}
@@ -99,7 +110,7 @@ func runSM(c *Ctx, s *Sink) {
 				base = append(base, linLE(pAtom, lfAtom(lenAtom)))
 			}
 			base = append(base, linLE(lfConst(0), lfAtom(lenAtom)))
-			linWalk([]linPath{{env: env, sys: base}}, rs.Body.List, func(lp linPath, st ast.Stmt) {
+			linWalk([]linPath{{env: env, sys: base}}, bodyList, func(lp linPath, st ast.Stmt) {
 				as, ok := st.(*ast.AssignStmt)
 				if !ok || len(as.Lhs) != 1 || len(as.Rhs) != 1 {
 					return
